@@ -25,17 +25,6 @@ theorem stuck_forever (s : SSys) (h : s.stuck = true) (l : SLabel) (ls : List SL
     srun s (l :: ls) = none := by
   simp [srun, stuck_internal s h l hl]
 
-/-! ### the shutdown run -/
-
-def toksPosts : List Tok → Nat
-  | [] => 0
-  | .seq k :: r => k + toksPosts r
-  | .eof :: r => toksPosts r
-
-def ipcPosts : IPc → Nat
-  | .posting k => k
-  | _ => 0
-
 theorem srun_append : ∀ (a b : List SLabel) (s s' : SSys), srun s a = some s' → srun s (a ++ b) = srun s' b
   | [], _, s, s', h => by simp [srun] at h; subst h; rfl
   | l :: t, b, s, s', h => by
@@ -43,151 +32,6 @@ theorem srun_append : ∀ (a b : List SLabel) (s s' : SSys), srun s a = some s' 
       cases hn : snext s l with
       | none => simp [hn] at h
       | some s1 => simp only [hn] at h ⊢; exact srun_append t b s1 s' h
-
-theorem post_k : ∀ (k : Nat) (s : SSys), s.ipc = .posting k → s.queueLen + k ≤ s.qcap →
-    srun s (List.replicate (k + 1) .inputStep) = some { s with ipc := .select, queueLen := s.queueLen + k }
-  | 0, s, hi, _ => by
-      simp [List.replicate, srun, snext, hi]
-  | k + 1, s, hi, hr => by
-      have hlt : s.queueLen < s.qcap := by omega
-      have ih := post_k k { s with queueLen := s.queueLen + 1, ipc := .posting k } rfl (by simp; omega)
-      rw [List.replicate_succ]
-      simp only [srun, snext, hi, hlt, if_true]
-      rw [ih]
-      simp
-      omega
-
-theorem drain : ∀ (toks : List Tok) (s : SSys), s.seqs = toks → s.ipc = .select → (∀ t ∈ toks, t ≠ .eof) →
-    s.queueLen + toksPosts toks ≤ s.qcap →
-    ∃ ls, (∀ l ∈ ls, l.internal = true) ∧
-      srun s ls = some { s with seqs := [], queueLen := s.queueLen + toksPosts toks }
-  | [], s, hs, hi, _, _ => ⟨[], by simp, by simp [srun, toksPosts, ← hs]⟩
-  | .eof :: r, s, _, _, hne, _ => absurd rfl (hne .eof (by simp))
-  | .seq k :: r, s, hs, hi, hne, hr => by
-      simp only [toksPosts] at hr
-      have h1 : snext s .inputRecv = some { s with seqs := r, ipc := .posting k } := by simp [snext, hi, hs]
-      have h2 := post_k k { s with seqs := r, ipc := .posting k } rfl (by simp; omega)
-      obtain ⟨ls, hint, h3⟩ := drain r { s with seqs := r, ipc := .select, queueLen := s.queueLen + k } rfl rfl
-        (fun t ht => hne t (by simp [ht])) (by simp; omega)
-      refine ⟨.inputRecv :: (List.replicate (k + 1) .inputStep ++ ls), ?_, ?_⟩
-      · intro l hl
-        simp only [List.mem_cons, List.mem_append, List.mem_replicate] at hl
-        rcases hl with rfl | ⟨_, rfl⟩ | hl
-        · rfl
-        · rfl
-        · exact hint l hl
-      · simp only [srun, h1]
-        rw [srun_append _ _ _ _ h2, h3]
-        cases s
-        simp [toksPosts] at hi ⊢
-        exact ⟨by omega, hi.symm⟩
-
-/-- The state every hypothesis-satisfying state is driven to first: input goroutine at its select,
-channel empty, one caller about to run `Close`, parser at program counter `pp`. -/
-def calm (q n : Nat) (c ks : Bool) (qc : Nat) (ib : List (Option Nat)) (pp : PPc) : SSys :=
-  { qcap := q, queueLen := n, consumer := c, inbuf := ib, ppc := pp, seqs := [], seqsClosed := false, closeSig := 0,
-    closedSig := 0, ipc := .select, killSig := ks, callers := [.checkFlag], closedFlag := false, suspendedFlag := false,
-    quitCloses := qc, da1Pending := 0 }
-
-def closeFromReading : List SLabel :=
-  [.caller 0, .caller 0, .caller 0, .caller 0, .caller 0, .caller 0,   -- check, quit event, flag, suspended, close signal, DA1
-   .termReply, .parser, .parser,                                       -- the reply wakes the parser; it takes the signal
-   .parser, .parser,                                                   -- EOF; closed <- true
-   .inputRecv,                                                         -- the input goroutine returns on EOF
-   .caller 0, .caller 0]                                               -- WaitClose returns; close(chQuit)
-
-def closeFromTop : List SLabel :=
-  [.caller 0, .caller 0, .caller 0, .caller 0, .caller 0, .caller 0,
-   .parser, .parser, .parser, .inputRecv, .caller 0, .caller 0]
-
-theorem close_from_reading (q n : Nat) (c ks : Bool) (qc : Nat) :
-    ∃ s', srun (calm q n c ks qc [] .reading) closeFromReading = some s' ∧ s'.final = true ∧ s'.quitCloses = qc + 1 := by
-  by_cases h : n < q <;> simp [calm, closeFromReading, srun, snext, closeStep, SSys.final, h]
-
-theorem close_from_top (q n : Nat) (c ks : Bool) (qc : Nat) (ib : List (Option Nat)) :
-    ∃ s', srun (calm q n c ks qc ib .top) closeFromTop = some s' ∧ s'.final = true ∧ s'.quitCloses = qc + 1 := by
-  by_cases h : n < q <;> simp [calm, closeFromTop, srun, snext, closeStep, SSys.final, h]
-
-theorem closeFromReading_internal : ∀ l ∈ closeFromReading, l.internal = true := by decide
-theorem closeFromTop_internal : ∀ l ∈ closeFromTop, l.internal = true := by decide
-
-def ppcPosts : PPc → Nat
-  | .emitting k => k
-  | _ => 0
-
-theorem internal_replicate (k : Nat) : ∀ l ∈ List.replicate k SLabel.inputStep, l.internal = true := by
-  intro l hl; rw [List.mem_replicate] at hl; rw [hl.2]; rfl
-
-theorem norm_ipc (s : SSys) (hi : s.ipc = .select ∨ ∃ k, s.ipc = .posting k) (hr : s.queueLen + ipcPosts s.ipc ≤ s.qcap) :
-    ∃ ls, (∀ l ∈ ls, l.internal = true) ∧
-      srun s ls = some { s with ipc := .select, queueLen := s.queueLen + ipcPosts s.ipc } := by
-  rcases hi with hi | ⟨k, hi⟩
-  · refine ⟨[], by simp, ?_⟩
-    cases s; simp at hi; simp [srun, hi, ipcPosts]
-  · refine ⟨List.replicate (k + 1) .inputStep, internal_replicate _, ?_⟩
-    rw [post_k k s hi (by simpa [hi, ipcPosts] using hr)]
-    simp [hi, ipcPosts]
-
-theorem shutdown_run (s : SSys)
-    (hpp : (s.ppc = .reading ∧ s.inbuf = []) ∨ s.ppc = .top ∨ ∃ k, s.ppc = .emitting k)
-    (hseqs : ∀ t ∈ s.seqs, t ≠ .eof)
-    (hi : s.ipc = .select ∨ ∃ k, s.ipc = .posting k)
-    (hcall : s.callers = [.checkFlag]) (hcf : s.closedFlag = false) (hsf : s.suspendedFlag = false)
-    (hcs : s.closeSig = 0) (hcd : s.closedSig = 0) (hda : s.da1Pending = 0) (hsc : s.seqsClosed = false)
-    (hroom : s.queueLen + ipcPosts s.ipc + toksPosts s.seqs + ppcPosts s.ppc ≤ s.qcap) :
-    ∃ ls s', (∀ l ∈ ls, l.internal = true) ∧ srun s ls = some s' ∧ s'.final = true ∧ s'.quitCloses = s.quitCloses + 1 := by
-  obtain ⟨ls1, hi1, hr1⟩ := norm_ipc s hi (by omega)
-  obtain ⟨ls2, hi2, hr2⟩ := drain s.seqs { s with ipc := .select, queueLen := s.queueLen + ipcPosts s.ipc } rfl rfl hseqs
-    (by simp; omega)
-  have h12 : srun s (ls1 ++ ls2) = some { s with ipc := .select, seqs := [], queueLen := s.queueLen + ipcPosts s.ipc + toksPosts s.seqs } := by
-    rw [srun_append _ _ _ _ hr1, hr2]
-  have hint12 : ∀ l ∈ ls1 ++ ls2, l.internal = true := by
-    intro l hl; rcases List.mem_append.mp hl with h | h
-    · exact hi1 l h
-    · exact hi2 l h
-  rcases hpp with ⟨hp, hib⟩ | hp | ⟨k, hp⟩
-  · -- parser blocked in ReadRune, nothing unread
-    obtain ⟨s', hrun, hfin, hq⟩ := close_from_reading s.qcap (s.queueLen + ipcPosts s.ipc + toksPosts s.seqs) s.consumer s.killSig s.quitCloses
-    refine ⟨(ls1 ++ ls2) ++ closeFromReading, s', ?_, ?_, hfin, hq⟩
-    · intro l hl; rcases List.mem_append.mp hl with h | h
-      · exact hint12 l h
-      · exact closeFromReading_internal l h
-    · rw [srun_append _ _ _ _ h12, ← hrun]
-      congr 1
-      cases s; simp_all [calm]
-  · obtain ⟨s', hrun, hfin, hq⟩ := close_from_top s.qcap (s.queueLen + ipcPosts s.ipc + toksPosts s.seqs) s.consumer s.killSig s.quitCloses s.inbuf
-    refine ⟨(ls1 ++ ls2) ++ closeFromTop, s', ?_, ?_, hfin, hq⟩
-    · intro l hl; rcases List.mem_append.mp hl with h | h
-      · exact hint12 l h
-      · exact closeFromTop_internal l h
-    · rw [srun_append _ _ _ _ h12, ← hrun]
-      congr 1
-      cases s; simp_all [calm]
-  · -- parser inside emit: the channel has been drained, the emit completes, the goroutine drains it again
-    let s12 : SSys := { s with ipc := .select, seqs := [], queueLen := s.queueLen + ipcPosts s.ipc + toksPosts s.seqs }
-    have hp3 : snext s12 .parser = some { s12 with seqs := [.seq k], ppc := .top } := by
-      simp [s12, snext, hp]
-    obtain ⟨ls4, hi4, hr4⟩ := drain [.seq k] { s12 with seqs := [.seq k], ppc := .top } rfl rfl (by simp)
-      (by simp [s12, toksPosts]; simp [hp, ppcPosts] at hroom; omega)
-    obtain ⟨s', hrun, hfin, hq⟩ := close_from_top s.qcap (s.queueLen + ipcPosts s.ipc + toksPosts s.seqs + k) s.consumer s.killSig s.quitCloses s.inbuf
-    refine ⟨(ls1 ++ ls2) ++ (.parser :: (ls4 ++ closeFromTop)), s', ?_, ?_, hfin, hq⟩
-    · intro l hl; rcases List.mem_append.mp hl with h | h
-      · exact hint12 l h
-      · rcases List.mem_cons.mp h with rfl | h
-        · rfl
-        · rcases List.mem_append.mp h with h | h
-          · exact hi4 l h
-          · exact closeFromTop_internal l h
-    · rw [srun_append _ _ _ _ h12]
-      simp only [srun]
-      have hp3' : snext { s with ipc := .select, seqs := [], queueLen := s.queueLen + ipcPosts s.ipc + toksPosts s.seqs } .parser
-            = some { s12 with seqs := [.seq k], ppc := .top } := hp3
-      rw [hp3']
-      simp only
-      rw [srun_append _ _ _ _ hr4, ← hrun]
-      congr 1
-      cases s; simp_all [calm, s12, toksPosts]
-
 
 theorem srun_reachable : ∀ (ls : List SLabel) (s0 s s' : SSys), SReachable s0 s → srun s ls = some s' → SReachable s0 s'
   | [], _, s, s', hr, h => by simp [srun] at h; subst h; exact hr
